@@ -52,7 +52,7 @@ class C16:
     tables = True
     rule = (
         "cases = histories of 20 steps of cd / cd - / cd -N / cd -P / pushd [dir|+N|-N|-n dir] / popd [+N|-N|-n] / dirs [-c|-p|-v|-l|+N|-N] and external "
-        "rmdir/mkdir/chmod of stack or target directories, under random $AUTO_PUSHD, $PUSHD_MINUS, $CDPATH, $DIRSTACK_SIZE in {0,1,3,20}; every step is an evaluation; "
+        "rmdir/mkdir/chmod of stack or target directories, under random $AUTO_PUSHD, $PUSHD_MINUS, $CDPATH, $DIRSTACK_SIZE in {0,1,3,20} (also changed in mid-history), cd() managers entered inline or made earlier and entered from another directory; every step is an evaluation; "
         "distinct_nontrivial = distinct (settings, op, argument class, stack depth before, outcome) tuples with stack depth >= 2 or a failing step"
     )
     assumptions = [
